@@ -34,6 +34,11 @@ ResultIsSorted ==
 SameDenotation ==
   /\ SameLabelSet(Remaining(Res.L), Remaining(l \o r))
   /\ ResolveSign(l \o r) = Res.phase * ResolveSign(Res.L) * ReorderSign(Remaining(l \o r), Remaining(Res.L))
+\* NEGATIVE CONTROLS (checks/c04.py expects TLC to report them): a resolution that forgot the phase it accumulated, and
+\* the claim that no pair of words ever needs a sign
+ControlPhaseForgotten ==
+  ResolveSign(l \o r) = ResolveSign(Res.L) * ReorderSign(Remaining(l \o r), Remaining(Res.L))
+ControlNeverNegative == Res.phase = 1
 \* words without conjugate pairs (C04's domain: distinct labels) are simply sorted
 DistinctLabelsSorted ==
   (LabelPairs(l \o r) = {}) => SameLabelSet(Res.L, l \o r)
